@@ -94,8 +94,14 @@ static void run_case(int n, char **lines) {
   /* device mode: a[0] first boot, a[16..] further boots */
   int nb = 1 + (na > 16 ? na - 16 : 0);
   for (int r = 0; r < nb; r++) {
-    unsigned boot = (unsigned)(r == 0 ? a[0] : a[16 + r - 1]);
-    vout("RUN %d %u", r, boot);
+    /* a negative entry -b means: boot value b with the report-grid anchor of the known finding rs-report-grid-anchor
+     * compensated (rs_cfg->last_comm_time preset so that the first 200 ms report test passes at the first timer tick, as it
+     * does whenever the counter is past 200 ms at init) — an intervention on exactly that variable, used by the monitor to
+     * decide whether a difference between boot = 1 and boot = 1000001 is caused by it */
+    long long braw = (r == 0 ? a[0] : a[16 + r - 1]);
+    int comp = braw < 0;
+    unsigned boot = (unsigned)(comp ? -braw : braw);
+    vout("RUN %d %u %d", r, boot, comp);
     fflush(stdout);
     pid_t pid = fork();
     if (pid == 0) {
@@ -103,6 +109,7 @@ static void run_case(int n, char **lines) {
       ds_apply_cfg(cfg);
       report_zero = 1;
       ds_boot(1);
+      if (comp) for (int i = 0; i < RS_MAX_COUNT; i++) supla_rs_cfg[i].last_comm_time = boot - 200000u;
       for (int i = 1; i < n; i++) if (!ds_event(lines[i])) vout("UNKNOWN-EVENT");
       ds_finish();
       fflush(stdout); _exit(0);
